@@ -177,8 +177,13 @@ def unhex(s):
 
 def run_replay(args, timeout=60, small=False, chrono=False):
     """run the native executor; returns dict key -> [values] (repeated keys keep order)"""
-    r = subprocess.run([replay_bin(small, chrono)] + [str(a) for a in args], stdout=subprocess.PIPE, stderr=subprocess.PIPE,
-                       text=True, timeout=timeout)
+    try:
+        r = subprocess.run([replay_bin(small, chrono)] + [str(a) for a in args], stdout=subprocess.PIPE, stderr=subprocess.PIPE,
+                           text=True, timeout=timeout)
+    except subprocess.TimeoutExpired:
+        # the native run does not terminate (runs normally take milliseconds): reported like a panic of the native run
+        msg = 'the native run does not terminate (stopped after %d s)' % timeout
+        return {'panic': [msg.encode().hex()], '_order': [('panic', msg.encode().hex())], '_rc': -1, '_stderr': '', '_timeout': True}
     out = {}
     order = []
     for line in r.stdout.splitlines():
